@@ -672,7 +672,16 @@ def model_specs(draw, profile=None):
             if g.coin(0.3):
                 pr["spend"] = {"t": [y0, start + g.pick([1, 2, 3]) * dt], "v": [money(), money()]}
                 g.labels.add("prog:spend-time-varying")
+                if g.coin(0.4):
+                    # both entries lie after the first simulated (and possibly active) time: before the first entry its value holds
+                    f = start + g.pick([1, 2]) * dt
+                    pr["spend"]["t"] = [f, f + g.pick([1, 2, 3]) * dt]
+                    g.labels.add("prog:series-starts-after-sim-start")
             pr["cost"] = {"t": [y0], "v": [g.pick([0.5, 1.0, 10.0, 200.0]) if g.coin(0.5) else g.fl(0.1, 500.0)]}
+            if g.coin(0.15):
+                f = start + g.pick([0, 1, 2]) * dt
+                pr["cost"] = {"t": [f, f + g.pick([1, 2]) * dt], "v": [pr["cost"]["v"][0], g.fl(0.1, 500.0)]}
+                g.labels.add("prog:unit-cost-time-varying")
             pr["per_year"] = g.coin(0.4)
             if g.coin(0.3):
                 pr["cap"] = {"t": [y0], "v": [g.pick([0.0, 1.0, 50.0, 1e4])]}
@@ -725,6 +734,10 @@ def model_specs(draw, profile=None):
             if g.coin(0.3):
                 ins["alloc"][q["name"]] = {"t": [ystart], "v": [g.fl(0.0, 5000.0)]}
                 g.labels.add("instr:alloc")
+                if g.coin(0.3):
+                    f = ystart + g.pick([1, 2]) * dt
+                    ins["alloc"][q["name"]] = {"t": [f, f + g.pick([1, 2]) * dt], "v": [g.fl(0.0, 5000.0), g.fl(0.0, 5000.0)]}
+                    g.labels.add("instr:alloc-series-starts-after-program-start")
             if g.coin(0.15):
                 ins["capacity"][q["name"]] = {"t": [ystart], "v": [g.fl(0.0, 2000.0)]}
                 g.labels.add("instr:capacity")
